@@ -3,9 +3,14 @@
  * State: one context with the modules of the last `schema` op, one data tree of the last `tree` op.
  *
  *   schema <yang-hex>+               load the modules into a fresh context
- *                                      -> ok <schema-ser input view> <schema-ser output view> | err Schema
+ *                                      -> ok <schema-ser input view> <schema-ser output view> <typed schema-ser input view>
+ *                                            <typed schema-ser output view> <type descriptors> | err Schema
+ *                                    typed: a leaf / leaf-list carries `#<n>`, the index of its type in the `;`-separated descriptor
+ *                                    list, computed from the compiled lysc_type (`?` = outside the modelled types)
  *   tree <kind> <xml-hex>            kind = data | rpc | reply | notif; parse (no validation)
- *                                      -> ok <n-nodes> <tree-ser> <n-nodes with the default flag> | err Parse
+ *                                      -> ok <n-nodes> <tree-ser> <n-nodes with the default flag> <tree-ser with value keys> | err Parse
+ *                                    value key: lyd_get_value, and for a union value that lyd_value_compare(node, lyd_get_value(node))
+ *                                    does NOT find equal to itself: a NUL byte and the index of the member type that stored it
  *   empty                            drop the tree, keep the direction (input / output) of the last `tree`  -> ok
  *   paths <type>                     lyd_path(node, type, NULL, 0) of every node, pre-order   -> ok <path-hex>*
  *   pathx <addr> <type> <buflen>     lyd_path into a caller buffer of exactly buflen bytes (heap block: ASan sees any
@@ -20,6 +25,7 @@
  *   find <path-hex>                  lyd_find_path -> ok <addr> | err Incomplete <addr> | err NotFound | err Invalid | err Rc<n>
  *   newpath <path-hex> <value-hex|~> lyd_new_path2 on the current tree (undone afterwards)
  *                                      -> ok <parent-addr> <ser of the created chain> | err Exists | err Einval | err Invalid | err Rc<n>
+ *   tnewpath <path-hex> <value-hex|~> the same, the created chain serialised with value keys
  *
  *   After `find` and `newpath` the harness checks that the call left no log location behind (an error provoked without
  *   any node involved must carry neither a schema nor a data path); if it did, ` LOC` is appended to the reply and the
@@ -81,6 +87,174 @@ ser_schema(struct sb *s, const struct lysc_node *parent, const struct lysc_modul
     }
 }
 
+
+/* ---- type descriptors (syntax of component `val`, see harness/api_types.c) computed from the compiled type ---- */
+static struct sb tdescs[256];
+static unsigned ntdescs;
+
+static void
+sb_num(struct sb *s, long long v, int uns)
+{
+    char b[32];
+    if (uns) sprintf(b, "%llu", (unsigned long long)v); else sprintf(b, "%lld", v);
+    sb_str(s, b);
+}
+
+static void
+desc_range(struct sb *s, const struct lysc_range *r, int uns)
+{
+    LY_ARRAY_COUNT_TYPE u;
+    if (!r) return;
+    sb_str(s, ":");
+    LY_ARRAY_FOR(r->parts, u) {
+        if (u) sb_str(s, ",");
+        sb_num(s, uns ? (long long)r->parts[u].min_u64 : r->parts[u].min_64, uns); sb_str(s, "..");
+        sb_num(s, uns ? (long long)r->parts[u].max_u64 : r->parts[u].max_64, uns);
+    }
+}
+
+static void
+desc_ident(struct sb *s, const struct lysc_ident *id)
+{
+    sb_str(s, id->module->name); sb_str(s, "."); sb_str(s, id->name);
+}
+
+/* returns 0 when the type is outside the modelled ones */
+static int
+type_desc(struct sb *s, const struct lysc_type *t, const struct lysc_node *leaf, int in_union)
+{
+    LY_ARRAY_COUNT_TYPE u, v, w; int i, j, first;
+
+    switch (t->basetype) {
+    case LY_TYPE_INT8: sb_str(s, "i8"); desc_range(s, ((struct lysc_type_num *)t)->range, 0); return 1;
+    case LY_TYPE_INT16: sb_str(s, "i16"); desc_range(s, ((struct lysc_type_num *)t)->range, 0); return 1;
+    case LY_TYPE_INT32: sb_str(s, "i32"); desc_range(s, ((struct lysc_type_num *)t)->range, 0); return 1;
+    case LY_TYPE_INT64: sb_str(s, "i64"); desc_range(s, ((struct lysc_type_num *)t)->range, 0); return 1;
+    case LY_TYPE_UINT8: sb_str(s, "u8"); desc_range(s, ((struct lysc_type_num *)t)->range, 1); return 1;
+    case LY_TYPE_UINT16: sb_str(s, "u16"); desc_range(s, ((struct lysc_type_num *)t)->range, 1); return 1;
+    case LY_TYPE_UINT32: sb_str(s, "u32"); desc_range(s, ((struct lysc_type_num *)t)->range, 1); return 1;
+    case LY_TYPE_UINT64: sb_str(s, "u64"); desc_range(s, ((struct lysc_type_num *)t)->range, 1); return 1;
+    case LY_TYPE_BOOL: sb_str(s, "bool"); return 1;
+    case LY_TYPE_DEC64: {
+        const struct lysc_type_dec *d = (const struct lysc_type_dec *)t; char b[8];
+        sprintf(b, "d%u", (unsigned)d->fraction_digits); sb_str(s, b); desc_range(s, d->range, 0); return 1;
+    }
+    case LY_TYPE_STRING: {
+        const struct lysc_type_str *st = (const struct lysc_type_str *)t;
+        if (st->patterns) return 0;
+        sb_str(s, "str"); desc_range(s, st->length, 1); return 1;
+    }
+    case LY_TYPE_ENUM: case LY_TYPE_BITS: {
+        const struct lysc_type_enum *e = (const struct lysc_type_enum *)t; char b[32];
+        sb_str(s, t->basetype == LY_TYPE_ENUM ? "enum:" : "bits:");
+        LY_ARRAY_FOR(e->enums, u) {
+            if (u) sb_str(s, ",");
+            sb_hex(s, e->enums[u].name);
+            if (t->basetype == LY_TYPE_ENUM) sprintf(b, "=%d", (int)e->enums[u].value); else sprintf(b, "=%u", (unsigned)e->enums[u].position);
+            sb_str(s, b);
+        }
+        return 1;
+    }
+    case LY_TYPE_IDENT: {
+        const struct lysc_type_identityref *ir = (const struct lysc_type_identityref *)t;
+        sb_str(s, "idref:"); sb_str(s, leaf->module->name); sb_str(s, ":");
+        LY_ARRAY_FOR(ir->bases, u) { if (u) sb_str(s, "+"); desc_ident(s, ir->bases[u]); }
+        sb_str(s, "@");
+        /* the identities of the loaded modules, each with its bases (X is a base of D iff D is in X->derived) */
+        first = 1;
+        for (i = 0; i < nmods; i++) {
+            LY_ARRAY_FOR(mods[i]->identities, u) {
+                const struct lysc_ident *id = &mods[i]->identities[u]; int nb = 0;
+                if (!first) sb_str(s, ",");
+                first = 0;
+                desc_ident(s, id);
+                for (j = 0; j < nmods; j++) {
+                    LY_ARRAY_FOR(mods[j]->identities, v) {
+                        const struct lysc_ident *x = &mods[j]->identities[v];
+                        LY_ARRAY_FOR(x->derived, w) {
+                            if (x->derived[w] == id) { sb_str(s, nb++ ? "+" : "<"); desc_ident(s, x); break; }
+                        }
+                    }
+                }
+            }
+        }
+        return !first;
+    }
+    case LY_TYPE_UNION: {
+        const struct lysc_type_union *un = (const struct lysc_type_union *)t;
+        if (in_union) return 0;
+        sb_str(s, "U(");
+        LY_ARRAY_FOR(un->types, u) {
+            if (u) sb_str(s, "|");
+            if (!type_desc(s, un->types[u], leaf, 1)) return 0;
+        }
+        sb_str(s, ")");
+        return 1;
+    }
+    default:
+        return 0;
+    }
+}
+
+static unsigned
+type_index(const struct lysc_node *leaf)
+{
+    const struct lysc_type *t = (leaf->nodetype == LYS_LEAF) ? ((const struct lysc_node_leaf *)leaf)->type :
+            (leaf->nodetype == LYS_LEAFLIST) ? ((const struct lysc_node_leaflist *)leaf)->type : NULL;
+    struct sb d = {0}; unsigned i;
+
+    if (!t) sb_str(&d, "str");                      /* anydata / anyxml: as the untyped model treats them */
+    else if (!type_desc(&d, t, leaf, 0)) { d.n = 0; sb_str(&d, "?"); }
+    for (i = 0; i < ntdescs; i++) {
+        if (!strcmp(tdescs[i].p, d.p)) { free(d.p); return i; }
+    }
+    if (ntdescs == 256) { free(d.p); return 0; }
+    tdescs[ntdescs] = d;
+    return ntdescs++;
+}
+
+static void
+ser_tschema(struct sb *s, const struct lysc_node *parent, const struct lysc_module *mod, uint32_t opts)
+{
+    const struct lysc_node *it = NULL;
+
+    while ((it = lys_getnext(it, parent, mod, opts))) {
+        char k[2] = {kind_of(it), 0}, b[16];
+        sb_str(s, "("); sb_hex(s, it->module->name); sb_str(s, ","); sb_hex(s, it->name); sb_str(s, ","); sb_str(s, k); sb_str(s, ",");
+        if (!(it->nodetype & (LYS_LEAF | LYS_LEAFLIST | LYS_ANYDATA | LYS_ANYXML))) {
+            ser_tschema(s, it, NULL, opts);
+        } else {
+            sprintf(b, "#%u", type_index(it)); sb_str(s, b);
+        }
+        sb_str(s, ")");
+    }
+}
+
+/* value key of a term node (see the header) */
+static int value_keys;
+
+static void
+sb_value(struct sb *s, const struct lyd_node *n)
+{
+    const char *c = lyd_get_value(n);
+
+    sb_hex(s, c);
+    if (value_keys && (n->schema->nodetype & (LYS_LEAF | LYS_LEAFLIST))) {
+        const struct lysc_type *t = (n->schema->nodetype == LYS_LEAF) ? ((const struct lysc_node_leaf *)n->schema)->type :
+                ((const struct lysc_node_leaflist *)n->schema)->type;
+        if ((t->basetype == LY_TYPE_UNION) && (lyd_value_compare((const struct lyd_node_term *)n, c, strlen(c)) == LY_ENOT)) {
+            const struct lysc_type_union *un = (const struct lysc_type_union *)t;
+            const struct lysc_type *rt = ((const struct lyd_node_term *)n)->value.subvalue->value.realtype;
+            LY_ARRAY_COUNT_TYPE u; char b[16], h[40]; size_t i;
+            LY_ARRAY_FOR(un->types, u) { if (un->types[u] == rt) break; }
+            sprintf(b, "%u", (unsigned)u);
+            if (!*c) s->n -= 1;                     /* "-" of the empty string */
+            sb_str(s, "00");
+            for (i = 0; b[i]; i++) { sprintf(h, "%02x", (unsigned char)b[i]); sb_str(s, h); }
+        }
+    }
+}
+
 static void
 ser_data(struct sb *s, const struct lyd_node *first, int with_siblings)
 {
@@ -90,7 +264,8 @@ ser_data(struct sb *s, const struct lyd_node *first, int with_siblings)
         if (!n->schema) { sb_str(s, "(-,-,i,-,)"); continue; }
         char k[2] = {kind_of(n->schema), 0};
         sb_str(s, "("); sb_hex(s, n->schema->module->name); sb_str(s, ","); sb_hex(s, n->schema->name); sb_str(s, ","); sb_str(s, k); sb_str(s, ",");
-        sb_hex(s, (n->schema->nodetype & LYD_NODE_TERM) ? lyd_get_value(n) : ""); sb_str(s, ",");
+        if (n->schema->nodetype & LYD_NODE_TERM) sb_value(s, n); else sb_str(s, "-");
+        sb_str(s, ",");
         ser_data(s, lyd_child(n), 1);
         sb_str(s, ")");
     }
@@ -235,10 +410,16 @@ main(void)
                 if (bad) break;
             }
             if (bad) { const struct ly_err_item *e = ly_err_last(ctx); fprintf(stderr, "schema: %s\n", e ? e->msg : "?"); vp_reply(id, "err Schema"); continue; }
-            struct sb a = {0}, b = {0};
-            for (i = 0; i < nmods; i++) { ser_schema(&a, NULL, mods[i]->compiled, 0); ser_schema(&b, NULL, mods[i]->compiled, LYS_GETNEXT_OUTPUT); }
-            vp_reply(id, "ok %s %s", a.n ? a.p : "-", b.n ? b.p : "-");
-            free(a.p); free(b.p);
+            struct sb a = {0}, b = {0}, ta = {0}, tb = {0}, td = {0}; unsigned k;
+            for (k = 0; k < ntdescs; k++) free(tdescs[k].p);
+            ntdescs = 0;
+            for (i = 0; i < nmods; i++) {
+                ser_schema(&a, NULL, mods[i]->compiled, 0); ser_schema(&b, NULL, mods[i]->compiled, LYS_GETNEXT_OUTPUT);
+                ser_tschema(&ta, NULL, mods[i]->compiled, 0); ser_tschema(&tb, NULL, mods[i]->compiled, LYS_GETNEXT_OUTPUT);
+            }
+            for (k = 0; k < ntdescs; k++) { if (k) sb_str(&td, ";"); sb_str(&td, tdescs[k].p); }
+            vp_reply(id, "ok %s %s %s %s %s", a.n ? a.p : "-", b.n ? b.p : "-", ta.n ? ta.p : "-", tb.n ? tb.p : "-", td.n ? td.p : "-");
+            free(a.p); free(b.p); free(ta.p); free(tb.p); free(td.p);
         } else if (!ctx) {
             vp_reply(id, "err NoSchema");
         } else if (!strcmp(op, "tree") && r.ntok == 5) {
@@ -254,7 +435,13 @@ main(void)
                 ly_in_free(in, 0);
             }
             if (rc) { const struct ly_err_item *e = ly_err_last(ctx); fprintf(stderr, "tree: %s\n", e ? e->msg : "?"); lyd_free_all(tree); tree = NULL; vp_reply(id, "err Parse"); }
-            else { struct sb s = {0}; ser_data(&s, tree, 1); vp_reply(id, "ok %u %s %u", count_nodes(tree), s.n ? s.p : "-", count_dflt(tree)); free(s.p); }
+            else {
+                struct sb s = {0}, t = {0};
+                ser_data(&s, tree, 1);
+                value_keys = 1; ser_data(&t, tree, 1); value_keys = 0;
+                vp_reply(id, "ok %u %s %u %s", count_nodes(tree), s.n ? s.p : "-", count_dflt(tree), t.n ? t.p : "-");
+                free(s.p); free(t.p);
+            }
             free(x);
         } else if (!strcmp(op, "empty") && r.ntok == 3) {
             lyd_free_all(tree); tree = NULL;
@@ -339,7 +526,7 @@ main(void)
             if (!rc || rc == LY_EINCOMPLETE) { struct sb s = {0}; addr_of(&s, m); vp_reply(id, rc ? "err Incomplete %s%s" : "ok %s%s", s.p, loc_probe()); free(s.p); }
             else vp_reply(id, "err %s%s", rcname(rc, eb), loc_probe());
             free(p);
-        } else if (!strcmp(op, "newpath") && r.ntok == 5) {
+        } else if ((!strcmp(op, "newpath") || !strcmp(op, "tnewpath")) && r.ntok == 5) {
             char *p = vp_unhex(r.tok[3], NULL), *v = strcmp(r.tok[4], "~") ? vp_unhex(r.tok[4], NULL) : NULL;
             struct lyd_node *np = NULL, *nn = NULL; LY_ERR rc;
             rc = lyd_new_path2(tree, ctx, p, v, 0, 0, is_output ? LYD_NEW_VAL_OUTPUT : 0, &np, &nn);
@@ -347,7 +534,9 @@ main(void)
             else if (!np) vp_reply(id, "err NothingCreated%s", loc_probe());
             else {
                 struct sb a = {0}, s = {0};
+                value_keys = (op[0] == 't');
                 addr_of(&a, lyd_parent(np)); ser_data(&s, np, 0);
+                value_keys = 0;
                 if (tree == np) tree = np->next;     /* cannot happen for a non-empty tree unless np became the first sibling */
                 lyd_free_tree(np);
                 if (tree) tree = lyd_first_sibling(tree);
